@@ -229,10 +229,10 @@ def config_signature(plan):
                        plan.get('transcriptions_file')])
 
 
-def execute(plan):
+def execute(plan, world_cls=PfWorld):
     res = kernel.RunResult()
     log = kernel.EventLog()
-    world = PfWorld(plan, res, log)
+    world = world_cls(plan, res, log)
     world.cfg_sig = config_signature(plan)
     evaluations = 0
     try:
